@@ -100,6 +100,7 @@ GROUPS["FitBatt"] = dict(domains=["Q"], anchors=[
     dict(name="L2f_charge", file=BATT, qual="Linear2StageBattery._charge",
          inline_props={"_soc": "Battery._soc"}, call_params={"np.random.normal": ("noise", "num")}),
 ])
+GROUPS["Convert"]["anchors"][0]["q_coq_require"] = "Qround"       # Qceiling (int() / math.ceil)
 for _a in GROUPS["Fit"]["anchors"] + GROUPS["FitBatt"]["anchors"]:
     _a["q_exp"] = "qexpf"
     _a["q_require"] = "Base.QExpFast"
